@@ -60,7 +60,8 @@ StartsFnObj(e) ==
   ELSE CASE e.k \in {"fn", "obj"} -> TRUE
          [] e.k = "bin" -> ~IsNilNode(e.c[1]) /\ PPrec(e.c[1]) >= PPrec(e) /\ StartsFnObj(e.c[1])
          [] e.k = "post" -> ~IsNilNode(e.c[1]) /\ PPrec(e.c[1]) >= PP_POSTFIX /\ StartsFnObj(e.c[1])
-         [] e.k \in {"call", "mem", "idx", "asg", "casg"} -> StartsFnObj(e.c[1])
+         [] e.k \in {"call", "mem", "idx"} -> ~IsNilNode(e.c[1]) /\ PPrec(e.c[1]) >= PP_CALL /\ StartsFnObj(e.c[1])
+         [] e.k \in {"asg", "casg"} -> StartsFnObj(e.c[1])
          [] OTHER -> FALSE
 
 EmitList(es, i) ==
@@ -108,12 +109,13 @@ Emit(n) ==
     [] n.k = "un" -> <<SepO(n.op), S(n.op)>> \o Wrap(PPrec(n.c[1]) < PP_UNARY, Emit(n.c[1]))
     [] n.k = "post" -> Wrap(PPrec(n.c[1]) < PP_POSTFIX, Emit(n.c[1])) \o <<S(n.op)>>
     [] n.k = "grp" -> <<Ru("("), IncO>> \o Emit(n.c[1]) \o <<DecO, Ru(")")>>
-    [] n.k = "call" -> Emit(n.c[1]) \o <<Ru("("), IncO>> \o EmitList(SubSeq(n.c, 2, Len(n.c)), 1) \o <<DecO, Ru(")")>>
+    \* a callee / object that binds less tightly than a call is parenthesised: (a + b)(c), (-a).p, (a = b)[c]
+    [] n.k = "call" -> Wrap(PPrec(n.c[1]) < PP_CALL, Emit(n.c[1])) \o <<Ru("("), IncO>> \o EmitList(SubSeq(n.c, 2, Len(n.c)), 1) \o <<DecO, Ru(")")>>
     [] n.k = "mem" ->
          \* a space between a decimal integer literal and the dot (`5.x` would be the number `5.`)
-         Emit(n.c[1]) \o (IF n.c[1].k = "num" /\ \A j \in 1..Len(VB(n.c[1].op)) : VB(n.c[1].op)[j] \in 48..57 THEN <<Ru(" ")>> ELSE <<>>)
+         Wrap(PPrec(n.c[1]) < PP_CALL, Emit(n.c[1])) \o (IF n.c[1].k = "num" /\ \A j \in 1..Len(VB(n.c[1].op)) : VB(n.c[1].op)[j] \in 48..57 THEN <<Ru(" ")>> ELSE <<>>)
          \o <<Ru(".")>> \o Emit(n.c[2])
-    [] n.k = "idx" -> Emit(n.c[1]) \o <<Ru("[")>> \o Emit(n.c[2]) \o <<Ru("]")>>
+    [] n.k = "idx" -> Wrap(PPrec(n.c[1]) < PP_CALL, Emit(n.c[1])) \o <<Ru("[")>> \o Emit(n.c[2]) \o <<Ru("]")>>
     [] n.k = "asg" -> Emit(n.c[1]) \o <<Sp, Ru("="), Sp>> \o Emit(n.c[2])
     [] n.k = "casg" -> Emit(n.c[1]) \o <<Sp, S(SubSeq(n.op, 1, 1)), Ru("="), Sp>> \o Emit(n.c[2])
     [] n.k = "fn" ->
